@@ -157,10 +157,7 @@ func c06Known(ec *epCase, f *Failure) *Failure {
 			if silent {
 				o = ec.silent.e
 			}
-			if declined != "" {
-				continue
-			}
-			if class != o.Class || (class == "ok" && val != o.Bool) {
+			if declined != "" || class != o.Class || (class == "ok" && val != o.Bool) {
 				okAll = false
 			}
 		}
@@ -171,6 +168,12 @@ func c06Known(ec *epCase, f *Failure) *Failure {
 		if okAll && differs {
 			return &Failure{Sig: "C06/known/" + q, Expected: f.Expected, Observed: f.Observed}
 		}
+	}
+	// where the reference declines (an orthogonal open point), fall back to the narrow syntactic form of
+	// the recorded unary defect: a lax path whose top level is unary +/- without accessors, Query failing
+	// suppressibly, Exists answering true
+	if !ec.p.Strict && (ec.p.E.K == KNeg || ec.p.E.K == KPos) && len(ec.p.E.Steps) == 0 && ec.verbose.q.Class == "soft" && ec.verbose.e.Class == "ok" && ec.verbose.e.Bool {
+		return &Failure{Sig: "C06/known/unary-nonnumeric-exists-true", Expected: f.Expected, Observed: f.Observed}
 	}
 	return f
 }
